@@ -520,18 +520,6 @@ class Output(object):
                 args["lw"] = self.grid_lw
             ax.grid('on', **args)
 
-        # Tick lines
-        for label in ax.get_xticklabels():
-            if self.xrot is not None:
-                label.set_rotation(self.xrot)
-            if self.tick_font_size is not None:
-                label.set_fontsize(self.tick_font_size)
-        for label in ax.get_yticklabels():
-            if self.yrot is not None:
-                label.set_rotation(self.yrot)
-            if self.tick_font_size is not None:
-                label.set_fontsize(self.tick_font_size)
-
         # Log scales (must be set before the ticks, since changing the scale resets them)
         if not self.skip_log:
             if self.xlog:
@@ -567,6 +555,18 @@ class Output(object):
         # Y-axis limits
         if self.ylim is not None:
             ax.set_ylim(self.ylim)
+
+        # Tick labels (after the scales, ticks and limits are set, so that the labels in use are the ones styled)
+        for label in ax.get_xticklabels():
+            if self.xrot is not None:
+                label.set_rotation(self.xrot)
+            if self.tick_font_size is not None:
+                label.set_fontsize(self.tick_font_size)
+        for label in ax.get_yticklabels():
+            if self.yrot is not None:
+                label.set_rotation(self.yrot)
+            if self.tick_font_size is not None:
+                label.set_fontsize(self.tick_font_size)
 
     def _adjust_axes(self, data):
         """
